@@ -30,7 +30,7 @@ BUDGET = {
 REQUIRED_PROBES = ["multi_page", "empty_middle_page", "fault_between_pages", "request_reused", "reuse_during",
                    "cancelled_mid_iteration", "rest_reply_body_lost", "attrs_read_between_page_fetches", "nonpaged_method", "map_paged", "scalar_paged", "concurrent_pagers",
                    "nonretryable_between_pages", "explicit_options_multi_page", "async_multi_page", "pages_consumed", "rest_fetch",
-                   "rest_multi_page", "repeated_cursor_value"]
+                   "rest_multi_page", "repeated_cursor_value", "pager_walked_twice"]
 ASSUMPTIONS = ["corners excluded from the grammar: a VALID page_size and a VALID max_results in one request (a mistyped "
                "max_results next to a valid page_size is generated: finding 27); wrapper-typed page_size; streaming RPCs with "
                "paging-shaped messages are generated and judged by C03 (finding 28), C07 classifies them as not paginated"]
@@ -343,6 +343,13 @@ def gen_op(spec, rng, codec, fs, s, m, cls, oid, client):
         op["read_attrs_each_page"] = True      # the caller looks at pager.next_page_token / total_size after every page
     if client == "async":
         op["think"] = rng.choice([0.0, 0.0, 0.002, 0.01])
+    if not any(op["faults"].values()) and "stop_after" not in op and op.get("consume") != "pages":
+        # caller behaviour: walk the same pager object twice.  (Decided by a PRNG derived from the finished op, so the rest of
+        # the workload is what it was.)
+        import random
+        from .. import rng as rng_mod
+        if random.Random(int(rng_mod.digest(op)[:12], 16)).random() < 0.15:
+            op["reiterate"] = True
     return op
 
 
@@ -388,6 +395,8 @@ def server_factory(run):
             req = codec.parse(m["input"], bytes.fromhex(call["reqs"][0]))
             tok = getattr(req, "page_token", "")
         st = state.setdefault(op["id"], {"tries": {}, "served": {}, "next": 0})
+        if op["id"] in getattr(run, "second_pass", ()) and not st.get("pass2"):
+            st.update({"pass2": True, "served": {}, "next": 1})       # a second walk may ask for every page again
         toks = [(op["request"].get("page_token") or "")] + [p["next_page_token"] for p in op["pages"][:-1]]
         if len(set(toks)) < len(toks):
             # repeated cursor values: the server is stateful (serves its history in order) and only checks
@@ -523,6 +532,31 @@ def judge_op(spec, codec, scenario, op, evs, probes):
     def V(rule, msg):
         return [{"rule": rule, "op": op["id"], "method": path, "msg": msg}]
 
+    # a second walk of the same pager is judged on its own (below); the first walk must look as if it were the only one
+    second = None
+    mark = next((i for i, e in enumerate(evs) if e["k"] == "second_pass"), None)
+    if mark is not None:
+        end = next((i for i, e in enumerate(evs) if e["k"] == "second_pass_end"), None)
+        if end is None:       # cancelled during the second walk: everything after the mark belongs to it, except the outcome
+            second = [e for e in evs[mark:] if e["k"] not in ("cancelled", "return", "raise")]
+            evs = evs[:mark] + [e for e in evs[mark:] if e["k"] in ("cancelled", "return", "raise")]
+        else:
+            second = evs[mark:end + 1]
+            evs = evs[:mark] + evs[end + 1:]
+    if second is not None and cls is not None:
+        _bump(probes, "pager_walked_twice")
+        exp_items = [x for pg in _expected_items(codec, spec, m, cls, op["pages"]) for x in pg]
+        got2 = [e["value"] for e in second if e["k"] == "item2"]
+        endev = second[-1] if second[-1]["k"] == "second_pass_end" else None
+        if endev is None:
+            pass                      # the caller was cancelled during the second walk: nothing to demand of it
+        elif endev.get("outcome") != "return":
+            return V("second_walk_failed", f"walking the same pager a second time raised {endev and endev.get('cls')}: {endev and endev.get('msg')}")
+        f2 = cls["items"]
+        same = len(got2) == len(exp_items) and (bool(f2.get("map")) or all(_item_equal(codec, f2, x, o) for x, o in zip(exp_items, got2)))
+        if endev is not None and got2 and not same:
+            return V("second_walk_partial", f"a second walk of the same pager yielded {len(got2)} of the {len(exp_items)} items (it must yield "
+                     f"nothing more, or every item of every page again, in order): {str(got2)[:200]}")
     pager_ev = next((e for e in evs if e["k"] == "pager"), None)
     outcome = next((e for e in evs if e["k"] in ("return", "raise", "cancelled")), None)
     attempts = [e for e in evs if e["k"] == "attempt"]
